@@ -29,7 +29,7 @@ def word(w):
 class Alphabet:
     """critical characters of one case: a few letters plus boundaries"""
     def __init__(self, rng, boundary=False):
-        base = rng.choice([[97, 98, 99], [97, 98, 99, 100], [48, 49, 97], [0, 1, 2], [MAXC - 2, MAXC - 1, MAXC], [97, 98, 99, 101]])
+        base = rng.choice([[97, 98, 99], [97, 98, 99, 100], [48, 49, 97], [0, 1, 2], [MAXC - 2, MAXC - 1, MAXC], [97, 98, 99, 101], [97, 98, 99], [0xD7FF, 0xD800, 0xDFFF, 0xE000], [0xFFFD, 0xFFFF, 0x10000]])
         self.letters = list(base)
         if boundary and rng.random() < 0.5:
             self.letters = sorted(set(self.letters + [rng.choice([0, MAXC])]))
